@@ -724,85 +724,164 @@ func (p *Prog) overrideTargetObligations() []Ob {
 }
 
 // ---------------------------------------------------------------------------
-// R3c CORRELATED-STATE: atomics that are updated together with lock-protected state must be
-// read together with it under that lock.
+// R3c CORRELATED-STATE: an atomic that is updated together with lock-protected state (the head's
+// next offset with its item list and key tree) summarises that state.  Reading the state and
+// loading the atomic *afterwards* without a lock of the update held across both lets an update slip
+// in between: the loaded value then covers data the read did not see (a cursor skips messages).
+// Loading the atomic first is safe (it only under-approximates).  Sites are direct accesses or calls
+// on the same object.
 func ruleR3c(p *Prog) []Ob {
 	var obs []Ob
 	ls := p.LocksetCached()
-	type corr struct {
-		atomic *types.Var
-		field  *types.Var
-		locks  map[*types.Var]bool
-		at     ssa.Instruction
-	}
-	isAtomicField := func(fa *ssa.FieldAddr) *types.Var {
-		f := fieldVarOfAddr(fa)
-		if f != nil && p.sharedStructField(f) && typeIs(f.Type(), "sync/atomic", "Int64") {
-			return f
+	baseLoc := func(loc string) string {
+		if i := strings.Index(loc, "→"); i >= 0 {
+			return loc[:i]
 		}
-		return nil
+		return loc
 	}
-	atomicAccess := func(ins ssa.Instruction) (*types.Var, string) {
+	atomicAccess := func(ins ssa.Instruction) (*types.Var, string, ssa.Value) {
 		c, ok := ins.(ssa.CallInstruction)
 		if !ok || len(c.Common().Args) == 0 {
-			return nil, ""
+			return nil, "", nil
 		}
 		nm := calleeName(c.Common())
 		if !strings.HasPrefix(nm, "(*sync/atomic.Int64).") {
-			return nil, ""
+			return nil, "", nil
 		}
 		fa, ok := c.Common().Args[0].(*ssa.FieldAddr)
 		if !ok {
-			return nil, ""
+			return nil, "", nil
 		}
-		return isAtomicField(fa), strings.TrimPrefix(nm, "(*sync/atomic.Int64).")
+		f := fieldVarOfAddr(fa)
+		if f == nil || !p.sharedStructField(f) || underConstruction(fa) {
+			return nil, "", nil
+		}
+		return f, strings.TrimPrefix(nm, "(*sync/atomic.Int64)."), fa.X
 	}
-	var corrs []corr
+	// accesses per function
+	accByFn := map[*ssa.Function][]lsAccess{}
+	for _, ac := range ls.access {
+		accByFn[ac.fn] = append(accByFn[ac.fn], ac)
+	}
+	// correlations
+	type corr struct {
+		atomic *types.Var
+		loc    string
+		locks  map[*types.Var]bool
+		at     ssa.Instruction
+	}
+	corrs := map[string]*corr{}
 	for _, fn := range p.Funcs {
 		if !srcFunc(fn) {
 			continue
 		}
-		var stores []ssa.Instruction
-		var fieldWrites []ssa.Instruction
 		for _, b := range fn.Blocks {
 			for _, ins := range b.Instrs {
-				if a, op := atomicAccess(ins); a != nil && op == "Store" && !underConstruction(ins.(ssa.CallInstruction).Common().Args[0]) {
-					stores = append(stores, ins)
+				a, op, _ := atomicAccess(ins)
+				if a == nil || op != "Store" {
+					continue
 				}
-				if st, ok := ins.(*ssa.Store); ok {
-					if fa, ok := st.Addr.(*ssa.FieldAddr); ok {
-						f := fieldVarOfAddr(fa)
-						if p.sharedStructField(f) && !skipLockFieldType(f.Type()) && !underConstruction(fa) {
-							fieldWrites = append(fieldWrites, ins)
+				for _, w := range accByFn[fn] {
+					if !w.write {
+						continue
+					}
+					common := map[*types.Var]bool{}
+					for m, md := range ls.at[ins] {
+						if md == modeW && w.ls[m] == modeW {
+							common[m] = true
+						}
+					}
+					if len(common) == 0 {
+						continue
+					}
+					k := p.fieldLabel(a) + "~" + baseLoc(w.loc)
+					if c, ok := corrs[k]; ok {
+						for m := range c.locks {
+							if !common[m] {
+								delete(c.locks, m)
+							}
+						}
+					} else {
+						corrs[k] = &corr{atomic: a, loc: baseLoc(w.loc), locks: common, at: ins}
+					}
+				}
+			}
+		}
+	}
+	// transitive summaries: which locations a function reads, which atomics it loads
+	readsLoc := map[*ssa.Function]map[string]bool{}
+	loadsAt := map[*ssa.Function]map[*types.Var]bool{}
+	for _, fn := range p.Funcs {
+		readsLoc[fn] = map[string]bool{}
+		loadsAt[fn] = map[*types.Var]bool{}
+		for _, ac := range accByFn[fn] {
+			readsLoc[fn][baseLoc(ac.loc)] = true
+		}
+		for _, b := range fn.Blocks {
+			for _, ins := range b.Instrs {
+				if a, op, _ := atomicAccess(ins); a != nil && op == "Load" {
+					loadsAt[fn][a] = true
+				}
+			}
+		}
+	}
+	for iter := 0; iter < 20; iter++ {
+		changed := false
+		for _, fn := range p.Funcs {
+			for _, b := range fn.Blocks {
+				for _, ins := range b.Instrs {
+					c, ok := ins.(ssa.CallInstruction)
+					if !ok {
+						continue
+					}
+					for _, g := range p.callees(c) {
+						for l := range readsLoc[g] {
+							if !readsLoc[fn][l] {
+								readsLoc[fn][l] = true
+								changed = true
+							}
+						}
+						for a := range loadsAt[g] {
+							if !loadsAt[fn][a] {
+								loadsAt[fn][a] = true
+								changed = true
+							}
 						}
 					}
 				}
 			}
 		}
-		for _, s := range stores {
-			a, _ := atomicAccess(s)
-			for _, w := range fieldWrites {
-				f := fieldVarOfAddr(w.(*ssa.Store).Addr.(*ssa.FieldAddr))
-				common := map[*types.Var]bool{}
-				for m, md := range ls.at[s] {
-					if md == modeW && ls.at[w][m] == modeW {
-						common[m] = true
-					}
-				}
-				if len(common) > 0 {
-					corrs = append(corrs, corr{atomic: a, field: f, locks: common, at: s})
-				}
-			}
+		if !changed {
+			break
 		}
 	}
-	seen := map[string]bool{}
-	for _, cr := range corrs {
-		key := p.fieldLabel(cr.atomic) + "~" + p.fieldLabel(cr.field)
-		if seen[key] {
+	// the object a site operates on
+	objOf := func(ins ssa.Instruction) ssa.Value {
+		if c, ok := ins.(ssa.CallInstruction); ok {
+			cc := c.Common()
+			if cc.IsInvoke() {
+				return canon(cc.Value)
+			}
+			if _, _, base := atomicAccess(ins); base != nil {
+				return canon(base)
+			}
+			if len(cc.Args) > 0 {
+				return canon(cc.Args[0])
+			}
+		}
+		if u, ok := ins.(*ssa.UnOp); ok {
+			if fa, ok := u.X.(*ssa.FieldAddr); ok {
+				return canon(fa.X)
+			}
+		}
+		return nil
+	}
+	for _, k := range sortedKeys(corrs) {
+		cr := corrs[k]
+		if len(cr.locks) == 0 {
 			continue
 		}
-		seen[key] = true
-		ob := Ob{Rule: "R3", Inst: "correlated:" + key, Props: []string{"C08"}, Pos: p.at(cr.at), Func: funcLabel(cr.at.Parent()), Nontrivial: true}
+		ob := Ob{Rule: "R3", Inst: "correlated:" + k, Props: []string{"C08", "C09", "C03"}, Pos: p.at(cr.at), Func: funcLabel(cr.at.Parent()), Nontrivial: true}
 		var bad []string
 		for _, fn := range p.Funcs {
 			if !srcFunc(fn) {
@@ -811,50 +890,80 @@ func ruleR3c(p *Prog) []Ob {
 			if _, ok := ls.entry[fn]; !ok {
 				continue
 			}
-			var loads, reads []ssa.Instruction
+			var s1, s2 []ssa.Instruction
+			for _, ac := range accByFn[fn] {
+				if baseLoc(ac.loc) == cr.loc && !ac.write {
+					s1 = append(s1, ac.ins)
+				}
+			}
 			for _, b := range fn.Blocks {
 				for _, ins := range b.Instrs {
-					if a, op := atomicAccess(ins); a == cr.atomic && op == "Load" {
-						loads = append(loads, ins)
+					if a, op, _ := atomicAccess(ins); a == cr.atomic && op == "Load" {
+						s2 = append(s2, ins)
+						continue
 					}
-					if u, ok := ins.(*ssa.UnOp); ok && u.Op == token.MUL {
-						if fa, ok := u.X.(*ssa.FieldAddr); ok && fieldVarOfAddr(fa) == cr.field && !underConstruction(fa) {
-							reads = append(reads, ins)
+					c, ok := ins.(ssa.CallInstruction)
+					if !ok {
+						continue
+					}
+					rl, la := false, false
+					for _, g := range p.callees(c) {
+						if readsLoc[g][cr.loc] {
+							rl = true
 						}
+						if loadsAt[g][cr.atomic] {
+							la = true
+						}
+					}
+					switch {
+					case rl && la:
+						// one call that does both: atomicity is the callee's business
+					case rl:
+						s1 = append(s1, ins)
+					case la:
+						s2 = append(s2, ins)
 					}
 				}
 			}
-			if len(loads) == 0 || len(reads) == 0 {
-				continue
-			}
-			for _, ld := range loads {
-				for _, rd := range reads {
-					ok := false
+			for _, r1 := range s1 {
+				for _, l2 := range s2 {
+					if r1 == l2 || !canReach(r1, l2) {
+						continue
+					}
+					o1, o2 := objOf(r1), objOf(l2)
+					if o1 == nil || o2 == nil || o1 != o2 {
+						continue
+					}
+					held := false
 					for m := range cr.locks {
-						_, h1 := ls.at[ld][m]
-						_, h2 := ls.at[rd][m]
+						_, h1 := ls.at[r1][m]
+						_, h2 := ls.at[l2][m]
 						if h1 && h2 {
-							ok = true
+							held = true
 						}
 					}
-					if !ok {
-						bad = append(bad, fmt.Sprintf("%s reads %s at %s holding %s and loads %s at %s holding %s: no lock of the update is held across both, so the pair can be torn by a concurrent update", funcLabel(fn), p.fieldLabel(cr.field), p.at(rd), p.lsString(ls.at[rd]), p.fieldLabel(cr.atomic), p.at(ld), p.lsString(ls.at[ld])))
+					if !held {
+						bad = append(bad, fmt.Sprintf("%s: reads %s at %s (holding %s) and loads %s afterwards at %s (holding %s); no lock of the update {%s} is held across both", funcLabel(fn), cr.loc, p.at(r1), p.lsString(ls.at[r1]), p.fieldLabel(cr.atomic), p.at(l2), p.lsString(ls.at[l2]), lockNames(p, cr.locks)))
 					}
 				}
 			}
 		}
 		sort.Strings(bad)
 		if len(bad) > 0 {
-			ob.Status, ob.Msg, ob.Path = Violated, fmt.Sprintf("%s and %s are updated together under a lock but can be read as an inconsistent pair", p.fieldLabel(cr.atomic), p.fieldLabel(cr.field)), uniqStrings(bad)
+			ob.Status, ob.Msg, ob.Path = Violated, fmt.Sprintf("%s summarises %s (they are updated together under a lock) but can be loaded after a read of that state with an update in between: the loaded value then covers data the read did not see", p.fieldLabel(cr.atomic), cr.loc), uniqStrings(bad)
 		} else {
-			var lk []string
-			for m := range cr.locks {
-				lk = append(lk, p.fieldLabel(m))
-			}
-			sort.Strings(lk)
-			ob.Status, ob.Msg = Discharged, fmt.Sprintf("updated together under {%s}; every function that reads both holds one of these locks at both reads", strings.Join(lk, ", "))
+			ob.Status, ob.Msg = Discharged, fmt.Sprintf("updated together under {%s}; wherever the state is read and the atomic loaded afterwards on the same object, one of these locks is held across both", lockNames(p, cr.locks))
 		}
 		obs = append(obs, ob)
 	}
 	return obs
+}
+
+func lockNames(p *Prog, m map[*types.Var]bool) string {
+	var lk []string
+	for v := range m {
+		lk = append(lk, p.fieldLabel(v))
+	}
+	sort.Strings(lk)
+	return strings.Join(lk, ", ")
 }
